@@ -107,6 +107,15 @@ def tour_behaviours(ctx, module, cfg, seed=None, timeout=900, workers=None):
     return res
 
 
+def replay_chunked(ctx, binary, cases, chunk=40, **kw):
+    """ctx.replay_behaviours in chunks of `chunk` cases on 4 engine processes: an opened repo + SQL engine keeps ~20 MB
+    after Close(), so every engine process is recycled after about ten cases."""
+    out = []
+    for i in range(0, len(cases), chunk):
+        out += ctx.replay_behaviours(binary, cases[i:i + chunk], shards=4, **kw)
+    return out
+
+
 def action_histogram(behaviours):
     h = {}
     for b in behaviours:
